@@ -98,9 +98,6 @@ Proof.
 Qed.
 
 (* ------------------------------------------------------------------ concrete worlds *)
-Definition wset (w : world) (i : id) (n : node) : world :=
-  mkWorld (upd (w_nodes w) i n) (w_next w) (w_files w) (w_models w).
-
 Lemma skel_wset_eq w i n : skel (wset w i n) i = Some (n_parent n, kids n).
 Proof. unfold skel, wset. cbn. rewrite upd_eq. reflexivity. Qed.
 Lemma skel_wset_neq w i n x : x <> i -> skel (wset w i n) x = skel w x.
@@ -116,11 +113,6 @@ Proof.
   - apply skel_wset_neq. auto.
 Qed.
 
-Lemma set_node_wset i n w r w' : set_node i n w = Val (r, w') -> r = OK tt /\ w' = wset w i n.
-Proof. apply set_node_inv. Qed.
-Lemma modify_node_wset i f w r w' :
-  modify_node i f w = Val (r, w') -> exists n, w_nodes w i = Some n /\ r = OK tt /\ w' = wset w i (f n).
-Proof. apply modify_node_inv. Qed.
 
 (* worlds that differ only in files / in model records with the same roots *)
 Lemma st_models w fs ms :
@@ -212,11 +204,6 @@ End STP.
   stp_fix_reference_origins stp_remove_reference_origin : stp.
 
 (* ------------------------------------------------------------------ allocation *)
-Definition walloc (w : world) (n : node) : world :=
-  mkWorld (upd (w_nodes w) (w_next w) n) (w_next w + 1) (w_files w) (w_models w).
-
-Lemma alloc_walloc n w r w' : alloc n w = Val (r, w') -> r = OK (w_next w) /\ w' = walloc w n.
-Proof. apply alloc_inv. Qed.
 Lemma alloc1_walloc w n : alloc1 w (walloc w n).
 Proof. repeat split; auto. intros x Hx. unfold skel, walloc. cbn. rewrite upd_neq by auto. reflexivity. Qed.
 Lemma skel_walloc_new w n : skel (walloc w n) (w_next w) = Some (n_parent n, kids n).
